@@ -808,6 +808,16 @@ func (x *c22) checkFirstWins(fi *FuncInfo, sig *types.Signature) {
 				return true
 			}
 			for i, e := range ret.Results {
+				if cgxIsNil(x.info, e) {
+					// `return p, nil` where the result is known to be nil on every path to the return
+					vi := res[i]
+					if c.GuardedBy(ret, func(l Lit) bool {
+						isNil, ok := cgxAssertsNil(x.info, l, vi)
+						return ok && isNil
+					}) {
+						continue
+					}
+				}
 				if cgxObj(x.info, e) != res[i] {
 					bad = fmt.Sprintf("result %d of the return inside the loop is %s, not the element's result %s", i+1, exprStr(e), res[i].Name())
 				}
